@@ -18,4 +18,4 @@ for dp, dn, fn in os.walk(os.path.join(root, 'jedi')):
             mods['.'.join(parts)] = canonicalise_comparisons(ast.parse(open(p, encoding='utf-8').read()))
 ref = build_reference(mods)
 json.dump(ref, open(REF_PATH, 'w'), indent=0)     # insertion order = order of first binding: used to pair equal fingerprints
-print('%d modules, %d functions with locals, %d functions in all' % (len(ref) - 4, sum(len(v) for k, v in ref.items() if not k.startswith('__')), sum(len(v) for v in ref['__functions__'].values())))
+print('%d modules, %d functions with locals, %d functions in all' % (len(ref) - 5, sum(len(v) for k, v in ref.items() if not k.startswith('__')), sum(len(v) for v in ref['__functions__'].values())))
